@@ -427,6 +427,12 @@ func (b *bidiH) Spec() connect.Spec           { return connect.Spec{} }
 
 // NewHandler builds a real connect.Handler of the given kind running f.
 func NewHandler(kind Kind, f HFunc, opts ...connect.HandlerOption) *connect.Handler {
+	return NewHandlerAt(Procedure, kind, f, opts...)
+}
+
+// NewHandlerAt is NewHandler with the procedure spelled as given (hand-written
+// constructors may pass a prefixed path or a URL; the library canonicalises).
+func NewHandlerAt(Procedure string, kind Kind, f HFunc, opts ...connect.HandlerOption) *connect.Handler {
 	switch kind {
 	case KUnary:
 		return connect.NewUnaryHandler(Procedure, func(ctx context.Context, req *connect.Request[BV]) (*connect.Response[BV], error) {
